@@ -416,6 +416,9 @@ func run(c *vf.Ctx) {
 		if !encodeSide(c, g, fname, idLen) {
 			return
 		}
+		if !porcelainSide(c, g, fname) {
+			return
+		}
 	}
 	c.Extra("git_invocations", gitx.Calls.Load())
 	c.Floor("raw trees decoded by go-git and listed by git", c.Counter("decode_git_confirmations"), c.N(250, 2500))
@@ -424,6 +427,7 @@ func run(c *vf.Ctx) {
 	c.Floor("entry sets git calls fsck-clean", c.Counter("encode_sets_valid"), c.N(300, 2500))
 	c.Floor("entry sets git calls unclean", c.Counter("encode_sets_invalid"), c.N(300, 2500))
 	c.Floor("trees written by go-git and fsck'ed", c.Counter("gogit_trees_fscked"), c.N(500, 4000))
+	c.Floor("worktrees committed through Worktree.Commit and compared with git write-tree", c.Counter("porcelain_git_write_tree_confirmations"), c.N(6, 40))
 	c.Floor("mktree cross-checks of the serialisation model", c.Counter("mktree_confirmations"), c.N(300, 2500))
 	c.Assume("git 2.39.5 ls-tree/mktree/fsck --strict are the reference; entry names longer than 4096 bytes are excluded from the encode domain because fsck.largePathname does not exist in git 2.39 (go-git follows git 2.54 and refuses them)")
 	c.Assume("'valid entry set' = the tree holding exactly that set (serialised in git's order) draws no error from git fsck --strict; 'fsck-clean' = no error line for the tree from git fsck --strict (warnings/info such as badFilemode for 100664 or gitignoreSymlink do not count)")
